@@ -687,6 +687,11 @@ func c20ForeignAKA() [][]byte {
 		{{T: 129, V: append([]byte{0, 0}, univ.Pat(16, 1)...)}, {T: 135, V: []byte{0, 0}}, {T: 136, V: []byte{0x80, 0}}},
 		{{T: ref.AtRAND, V: univ.Pat(16, 2)}, {T: 12, V: []byte{0x40, 0}}, {T: 19, V: []byte{0, 3}}, {T: 130, V: append([]byte{0, 0}, univ.Pat(12, 3)...)}, {T: 135, V: []byte{0, 0}}},
 		{{T: 4, V: univ.Pat(14, 4)}, {T: 22, V: []byte{0, 1}}},
+		// repeated attributes: a server lists one AT_KDF per key derivation function it offers (RFC 5448 3.2); repeated
+		// skippable attributes
+		{{T: ref.AtRAND, V: univ.Pat(16, 5)}, {T: ref.AtKDF, V: []byte{0, 3}}, {T: ref.AtKDF, V: []byte{0, 2}}, {T: ref.AtKDF, V: []byte{0, 1}}, {T: ref.AtKDFInput, V: univ.Pat(7, 6)}},
+		{{T: ref.AtKDF, V: []byte{0, 1}}, {T: ref.AtKDF, V: []byte{0, 1}}, {T: 135, V: []byte{0, 0}}, {T: 135, V: []byte{0, 1}}, {T: 135, V: []byte{0, 2}}, {T: 135, V: []byte{0, 3}}},
+		{{T: ref.AtRAND, V: univ.Pat(16, 7)}, {T: ref.AtRAND, V: univ.Pat(16, 8)}, {T: ref.AtRES, V: univ.Pat(5, 9)}, {T: ref.AtRES, V: univ.Pat(9, 10)}, {T: ref.AtCheckcode, V: nil}, {T: ref.AtCheckcode, V: univ.Pat(20, 11)}},
 	}
 	for _, at := range sets {
 		m := ref.Msg{H: univ.BaseHdr, P: []ref.Payload{{T: ref.PEAP, EAP: &ref.EAP{Code: 1, ID: 3, Method: 50, Sub: 1, AKA: at}}}}
